@@ -2,6 +2,7 @@ import S2T.Lemmas.OmmlMain
 import S2T.Lemmas.OmmlRuns
 import S2T.Gen.Omml
 import S2T.Props.C19_Src
+import S2T.Props.C19_Hist
 /-!
 # C19 — OMML → LaTeX conversion is total, order-preserving and balanced
 
@@ -21,6 +22,8 @@ on the unfixed source model and code disagree and the harness finds the failing 
 * Theorems are generic in the tables (`TablesOk`, decidable) and instantiated at the tables generated
   from the current source, for which the kernel re-decides `TablesOk` on every run.
 * Quantifiers: every tree (`Xml`, any depth/width), every tag name, every text.
+* Determinism along HISTORIES on one mutable element object (convert, edit in place, convert again) and the generated
+  fact that `omml_to_latex.py` keeps no inter-call state: part file `Props/C19_Hist.lean`.
 -/
 namespace S2T.C19
 open S2T.Omml
@@ -317,5 +320,25 @@ theorem out_of_schema_order_reorders :
       ∧ sourceText tables x = "bac".toList := by decide +kernel
 
 end examples
+
+/-! ## Function of the tree (histories: `Props/C19_Hist.lean`) -/
+
+/-- **the translated source is a function of the tree**: two ElementTree elements with the same abstraction (same
+    namespace flags, local names, `m:val`, texts, children — whatever their identity, tails, other attributes) are
+    converted to the same string; neither raises -/
+theorem C19_function_of_tree (x y : S2T.Py.Omml.Xml)
+    (h : S2T.Py.Omml.abs S2T.Gen.PyOmml.M_NS x = S2T.Py.Omml.abs S2T.Gen.PyOmml.M_NS y) :
+    S2T.Gen.PyOmml.omml_to_latex (some x) = S2T.Gen.PyOmml.omml_to_latex (some y)
+    ∧ ∃ r, S2T.Gen.PyOmml.omml_to_latex (some x) = Except.ok r := by
+  rw [S2T.C19.Src.omml_to_latex_eq, S2T.C19.Src.omml_to_latex_eq, h]
+  exact ⟨rfl, _, rfl⟩
+
+/-- … and along a history: the translated function applied to any element representing the edited tree gives the
+    demanded output -/
+theorem C19_history_translated (t : Xml) (steps : List S2T.OmmlHist.Step) (x : S2T.Py.Omml.Xml) (p : List Nat) (sub : Xml)
+    (hsub : S2T.OmmlHist.subAt p (steps.foldl (fun t s => match s with | .edit q e => S2T.OmmlHist.editAt q e t | .conv _ => t) t) = some sub)
+    (hx : S2T.Py.Omml.abs S2T.Gen.PyOmml.M_NS x = sub) :
+    S2T.Gen.PyOmml.omml_to_latex (some x) = pure (omml S2T.Gen.Omml.tables sub) := by
+  rw [S2T.C19.Src.omml_to_latex_eq, hx]
 
 end S2T.C19
